@@ -253,7 +253,7 @@ def drive_ans(cm, np, rng, n_events, out, rep):
                 rep.bad("seek beyond the data was accepted")
             except Exception:
                 observe(coder, {"ev": "seek_refused", "target": p + 1}); rep.cls("seek_refused")
-        else:
+        elif rng.random() < 0.5:
             d = mods.desc(); sup = list(mods.support(d)); sym = rng.choice([sup[-1] + 1, sup[0] - 1, sup[-1] + (1 << 24), -(1 << 20)])
             try:
                 coder.encode_reverse(sym, mods.build(d))
@@ -261,6 +261,25 @@ def drive_ans(cm, np, rng, n_events, out, rep):
             except Exception:
                 pass
             observe(coder, {"ev": "enc_refused", "items": [[mods.spec(d), sym]]}); rep.cls("enc_refused")
+        else:
+            # an impossible symbol at a random index of an ARRAY call (iid array or model family): the call must raise; the
+            # symbols processed before it (for the stack: those behind it in the array) are on the coder, nothing else
+            fam = rng.choice([None, "uniform", "fast", "leaky"]); k = rng.randint(2, 5); bad = rng.randrange(k)
+            if fam is None:
+                d = mods.desc(); ds = [d] * k
+            else:
+                ds, _ = family(mods, rng, fam, k); k = len(ds); bad = min(bad, k - 1)
+            syms = [rng.choice(list(mods.support(x))) for x in ds]
+            sup = list(mods.support(ds[bad])); syms[bad] = rng.choice([sup[-1] + 1, sup[0] - 1, sup[-1] + (1 << 24)])
+            try:
+                if fam is None: coder.encode_reverse(layout(np, rng, syms, np.int32), mods.build(ds[0]))
+                else: encode_family(coder.encode_reverse, cm, np, mods, fam, ds, syms)
+                rep.bad("encode_reverse(array) with impossible symbol %r at index %d of %d (%s) raised nothing" % (syms[bad], bad, k, fam or "iid"))
+            except KeyError:
+                pass
+            done = [[mods.spec(ds[i]), syms[i]] for i in range(k - 1, bad, -1)]
+            for i in range(k - 1, bad, -1): stack.append((ds[i], syms[i]))
+            observe(coder, {"ev": "enc_partial", "items": done, "bad": [mods.spec(ds[bad]), syms[bad]]}); rep.cls("enc_array_with_impossible_symbol")
     f.close()
 
 
@@ -317,6 +336,23 @@ def drive_range(cm, np, rng, n_events, out, rep):
                 except Exception:
                     pass
                 observe(enc, {"ev": "enc_refused", "items": [[mods.spec(d), sym]]}); rep.cls("enc_refused")
+                if rng.random() < 0.6:
+                    fam = rng.choice([None, "uniform", "fast", "leaky"]); k = rng.randint(2, 5); bad = rng.randrange(k)
+                    if fam is None:
+                        d = mods.desc(); ds = [d] * k
+                    else:
+                        ds, _ = family(mods, rng, fam, k); k = len(ds); bad = min(bad, k - 1)
+                    syms = [rng.choice(list(mods.support(x))) for x in ds]
+                    sup = list(mods.support(ds[bad])); syms[bad] = rng.choice([sup[-1] + 1, sup[0] - 1, sup[-1] + (1 << 24)])
+                    try:
+                        if fam is None: enc.encode(layout(np, rng, syms, np.int32), mods.build(ds[0]))
+                        else: encode_family(enc.encode, cm, np, mods, fam, ds, syms)
+                        rep.bad("encode(array) with impossible symbol %r at index %d of %d (%s) raised nothing" % (syms[bad], bad, k, fam or "iid"))
+                    except KeyError:
+                        pass
+                    for i in range(bad): msg.append((ds[i], syms[i]))
+                    observe(enc, {"ev": "enc_partial", "items": [[mods.spec(ds[i]), syms[i]] for i in range(bad)], "bad": [mods.spec(ds[bad]), syms[bad]]}); rep.cls("enc_array_with_impossible_symbol")
+                    snaps.append((enc.pos(), len(msg)))
                 continue
             pos, lower, rng_, words = observe(enc, {"ev": "enc", "items": items})
             if pos > 0 and len(words) > 0 and pos > len(words) - 1 and not held_seen:
